@@ -181,6 +181,7 @@ type Kernel struct {
 	Hook     func(r *Req)
 	mcast    *Conn
 	inflight int
+	nemit    int
 	idle     *sync.Cond
 }
 
@@ -630,12 +631,25 @@ func (k *Kernel) EmitBuffer(seid uint64, pdr uint16, action uint16, pkt []byte) 
 	if mc == nil {
 		return fmt.Errorf("no multicast connection")
 	}
-	var b []byte
-	b = append(b, enc(5, false, u16(pdr))...)
-	b = append(b, enc(7, false, u16(action))...)
-	b = append(b, enc(6, false, u64(seid))...)
+	// the attributes of one notification in varying order: a decoder must not rely on the position of any of them
+	parts := [][]byte{enc(5, false, u16(pdr)), enc(7, false, u16(action)), enc(6, false, u64(seid))}
 	if pkt != nil {
-		b = append(b, enc(4, false, pkt)...)
+		parts = append(parts, enc(4, false, pkt))
+	}
+	k.mu.Lock()
+	k.nemit++
+	rot := k.nemit
+	k.mu.Unlock()
+	if seid >= 0x7fffffffffff0000 {
+		rot = 0 // the harness's own marker notifications keep the module's order (packet last): they are not test input
+	}
+	var b []byte
+	for i := range parts {
+		j := (i + rot) % len(parts)
+		if rot%2 == 1 {
+			j = len(parts) - 1 - j
+		}
+		b = append(b, parts[j]...)
 	}
 	_, err := syscall.Write(mc.kfd, data(0, CmdBufferGtpu, enc(1, true, b)))
 	return err
